@@ -206,6 +206,19 @@ CHECKS = {
              "implementation: observed after 30 s); healthy schedules on the real code are sampled",
         technique="TLA+ model checking (TLC) of the timed healthy model + trace validation of the real raft.rs in a deterministic simulator",
         engine="vraft"),
+    "C31": dict(
+        level="model_checking",
+        text="ApplyOrder.tla models the hand-over of committed entries to the executor: as a queue it satisfies InOrderOnce exhaustively "
+             "(executions start in increasing index order, each once, one at a time); the task-per-entry mechanism of the pinned code "
+             "violates it (kept as the non-vacuity probe). A real agdb_server process built with hook H5 (commit / start / end of "
+             "every cluster log entry appended to an event file; the start of entry i delayed by d*(3 - i mod 4) ms) is loaded by 6 "
+             "concurrent clients issuing cluster actions; ApplyTrace.tla decides the event file: commits in log order, an execution "
+             "starts only for the oldest pending entry and only when none is running, every committed entry executed once.",
+        design="3.10, 4 C31",
+        note="single node server (the executor code is the same on every node); task schedules are sampled and perturbed by the hook's "
+             "delay, which cannot make an in-order executor run out of order; restart / re-execution is not exercised",
+        technique="TLA+ model checking (TLC) of the executor model + trace validation of the hook's event file from a real server",
+        engine="vserver"),
     "C32": dict(
         level="fault_enumeration",
         text="A public StorageData wrapper around the real FileStorage (no hook) makes the k-th write/resize call of a query "
@@ -237,7 +250,7 @@ ENGINES.append({"name": "vraft", "path": "harness/vraft", "serves_properties": [
                 "kind_free_text": "deterministic simulator around the real agdb_server/src/raft.rs (virtual clock substituted at build time, "
                                   "in-memory log store mirroring ClusterStorage); TLC for RaftCore/AgdbRaft/AgdbRaftHealthy/RaftTrace"})
 
-ENGINES.append({"name": "vserver", "path": "lib/serverdrv.py", "serves_properties": ["C24", "C25", "C26"],
+ENGINES.append({"name": "vserver", "path": "lib/serverdrv.py", "serves_properties": ["C24", "C25", "C26", "C31"],
                 "kind_free_text": "Python driver around a real agdb_server process (binary built from /repo with the hook guard on); "
                                   "TLC for ServerTrace"})
 
